@@ -17,7 +17,8 @@ RULE = ("histories of coefficient requests mixing all spacecraft of the shipped 
         "non-trivial = the request differs from the previous one in file, spacecraft or custom set; distinct by "
         "(history index, position). READER ROUTES: small passes of the four reader classes calibrated with the custom set and the file "
         "named through every option route (calibration_parameters with one or both entries, the legacy keywords alone and together, empty "
-        "custom sets); the coefficient object built by the calibration is captured and compared with the pure function")
+        "custom sets); the coefficient object built by the calibration is captured and compared with the pure function. MISSING SPACECRAFT: "
+        "for each spacecraft a user file lacking it; requests around a request for the missing one are compared with the pure function")
 
 VIS = ("channel_1", "channel_2", "channel_3a")
 IR = ("channel_3b", "channel_4", "channel_5")
@@ -57,6 +58,48 @@ def perturb(v, rng):
             w = w[:-1] + rng.choice(["+02:00", "-05:30", "+00:00", "+13:45"])
         return w
     return v
+
+
+def missing_spacecraft_cases(ctx, tables, d, sats):
+    """A user file that lacks ONE spacecraft (files derived from older coefficient releases predate the later launches): a request
+    for the missing spacecraft - whatever it does, on this tree it raises KeyError - must leave no trace: the following requests
+    with the SAME file are still the pure function of that file's content, the following default requests the shipped set."""
+    from pygac.calibration.noaa import Calibrator
+    rng = ctx.rng
+    for k, miss in enumerate(sats):
+        part = {s_: copy.deepcopy(v) for s_, v in tables[2].items() if s_ != miss}
+        pm = os.path.join(d, "partial_%d.json" % k)
+        with open(pm, "w") as fh:
+            json.dump(part, fh)
+        others = [s_ for s_ in sats if s_ != miss]
+        a, b = rng.sample(others, 2)
+        if k % 3 == 0:
+            Calibrator.default_coeffs, Calibrator.default_file, Calibrator.default_version = None, None, None
+        seq = [(a, pm), (miss, pm), (b, pm), (a, pm), (miss, None), (b, None)] if k % 2 == 0 else [(miss, pm), (a, pm), (a, None)]
+        payload = {"stream": "missing-spacecraft", "missing": miss, "sequence": [(x, "partial" if y else "shipped") for x, y in seq]}
+        for i, (sat, path) in enumerate(seq):
+            with warnings.catch_warnings():
+                warnings.simplefilter("ignore")
+                try:
+                    cal = Calibrator(sat, coeffs_file=path)
+                except Exception as e:
+                    if sat == miss and path is not None:
+                        ctx.branches["missing-spacecraft/raises:%s" % type(e).__name__] += 1
+                        continue
+                    ctx.violation("request %d (%s, %s file) after a request for a spacecraft the file lacks raised %s: %s" % (
+                        i, sat, "partial" if path else "shipped", type(e).__name__, e), payload, cls="missing-spacecraft:raises")
+                    continue
+            if sat == miss and path is not None:
+                continue      # an answer for the missing spacecraft is not judged here, only what follows
+            src = part if path else tables[0]
+            want = materialise(dict(src[sat]), sat, None if path else "PATMOS-x, v2023")
+            bad = [fld for fld in want if not same(getattr(cal, fld), want[fld])]
+            if bad:
+                ctx.violation("file without %s: request %d = (%s, %s file) differs from the pure function of (spacecraft, file content) in %s "
+                              "after the file was asked for the spacecraft it lacks" % (miss, i, sat, "that" if path else "shipped", bad),
+                              payload, cls="missing-spacecraft:impure")
+            ctx.case(("missing-spacecraft", miss, i), nontrivial=True, branch="missing-spacecraft/request")
+        os.remove(pm)
 
 
 def reader_routes(ctx, tables, paths, versions, cur3, p3):
@@ -367,6 +410,7 @@ def run(ctx):
     finally:
         Calibrator.default_coeffs, Calibrator.default_file, Calibrator.default_version = saved
     try:
+        missing_spacecraft_cases(ctx, tables, d, sats)
         reader_routes(ctx, tables, paths, versions, state3["cur"], p3)
     finally:
         Calibrator.default_coeffs, Calibrator.default_file, Calibrator.default_version = saved
